@@ -175,6 +175,21 @@ int main()
       std::unique_ptr<AMatrix> mc(build(kind, a, nr, nc)); mc->setDiagonal(v);
       printf("m setdiag %s %s => %s\n", vecD(v).c_str(), A.c_str(), matText(*mc).c_str());
     }
+    // sub-sampling (rows / columns kept or dropped, in the given order)
+    {
+      auto pickIdx = [&](int n) { VectorInt v; if (rng.coin(0.25)) return v; for (int i = 0; i < n; i++) if (rng.coin(0.5)) v.push_back(i); for (int i = (int)v.size() - 1; i > 0; i--) std::swap(v[i], v[rng.range(0, i)]); return v; };
+      VectorInt rk = pickIdx(nr), ck = pickIdx(nc);
+      bool ir = rng.coin(0.4), icl = rng.coin(0.4);
+      std::unique_ptr<MatrixRectangular> sm(MatrixRectangular::sample(m.get(), rk, ck, ir, icl));
+      printf("m samp %d %d %s %s %s => %s\n", ir, icl, vecI(rk).c_str(), vecI(ck).c_str(), A.c_str(), sm ? matText(*sm).c_str() : "- - -");
+      st.hit("sampling");
+      if (kind == 2)
+      {
+        bool iv = rng.coin(0.4);
+        std::unique_ptr<MatrixSquareSymmetric> ss(MatrixSquareSymmetric::sample(dynamic_cast<MatrixSquareSymmetric*>(m.get()), rk, iv));
+        printf("m samp %d %d %s %s %s => %s\n", iv, iv, vecI(rk).c_str(), vecI(rk).c_str(), A.c_str(), ss ? matText(*ss).c_str() : "- - -");
+      }
+    }
     // congruence products
     {
       bool t = rng.coin();
